@@ -7,6 +7,9 @@ use std::sync::OnceLock;
 use ebv_core::runner::{Case, Input, Stage};
 use libfuzzer_sys::fuzz_target;
 
+#[global_allocator]
+static GLOBAL: ebv_core::allocstat::CountingAlloc = ebv_core::allocstat::CountingAlloc;
+
 static STAGE: OnceLock<(String, Stage)> = OnceLock::new();
 
 fn stage() -> &'static (String, Stage) {
